@@ -387,22 +387,16 @@ class H2Protocol:
         await self.has_data.set()
 
     async def _priority_updated(self, event: h2.events.PriorityUpdated) -> None:
+        # Only the weight is used. The priority tree loses track of its
+        # streams when a client makes one depend on its own dependents
+        # (stale entries it keeps scheduling, even cycles it then loops
+        # in for ever) and priorities are advisory.
         try:
-            self.priority.reprioritize(
-                stream_id=event.stream_id,
-                depends_on=event.depends_on or None,
-                weight=event.weight,
-                exclusive=event.exclusive,
-            )
+            self.priority.reprioritize(stream_id=event.stream_id, weight=event.weight)
         except priority.MissingStreamError:
             # Received PRIORITY frame before HEADERS frame
             try:
-                self.priority.insert_stream(
-                    stream_id=event.stream_id,
-                    depends_on=event.depends_on or None,
-                    weight=event.weight,
-                    exclusive=event.exclusive,
-                )
+                self.priority.insert_stream(stream_id=event.stream_id, weight=event.weight)
             except priority.TooManyStreamsError:
                 return  # Priority information is advisory, ignore it
             self.priority.block(event.stream_id)
